@@ -5,9 +5,9 @@
     init_bound_poles, invert_bound, union_rect_bound, cell_cap_bound, cu_cap_bound,
     monotone_chain are the hand models of Model/Bounds.v, tied to the code by [T]. *)
 From Coq Require Import ZArith Reals Floats Bool List.
-From Geo Require Import Base.GoPrim Base.F64 Gen.Bounds Model.Bounds.
+From Geo Require Import Base.GoPrim Base.F64 Gen.Bounds Gen.CellRect Model.Bounds.
 From Geo Require Import Proofs.C19_R1 Proofs.C10_S1 Proofs.C10_Rect Proofs.C10_Cap Proofs.C10_Hull
-  Proofs.C10_Numeric Proofs.C10_Refuted Proofs.C10_CapRect.
+  Proofs.C10_Numeric Proofs.C10_Refuted Proofs.C10_CapRect Proofs.C10_CellRect.
 Import ListNotations.
 Local Open Scope R_scope.
 
@@ -104,6 +104,19 @@ Theorem cap_rect_bound_longitude_is_valid : forall c,
   valid_s1 (s2_Rect_Lng (s2_Cap_RectBound c)).
 Proof. exact cap_rectbound_lng_valid. Qed.
 Print Assumptions cap_rect_bound_longitude_is_valid.
+
+(** 5c. Cell.RectBound of a face cell (translated code, Gen/CellRect.v): the tabulated rectangle
+    padded by exactly (dblEpsilon, 0); for all six faces the latitude interval is widened by one
+    dblEpsilon on both sides (clamped at the poles) and the longitude interval is unchanged. *)
+Theorem cell_rect_bound_level0_is_lat_padded : forall c, (0 <? s2_Cell_level c)%Z = false ->
+  s2_Cell_RectBound c =
+  s2_Rect_expanded (face_bound_unpadded (s2_Cell_face c)) (mk_s2_LatLng DBL_EPSILON 0%float).
+Proof. exact cell_rect_bound_level0_shape. Qed.
+Print Assumptions cell_rect_bound_level0_is_lat_padded.
+
+Theorem face_cells_latitude_strictly_padded : forallb lat_padded_ok [0; 1; 2; 3; 4; 5]%Z = true.
+Proof. exact face_cells_latitude_padded. Qed.
+Print Assumptions face_cells_latitude_strictly_padded.
 
 (** 6. monotoneChain over an abstract orientation predicate: consecutive triples are CCW, the
     output is a subsequence of the (sorted) input, first and last points are preserved. *)
